@@ -83,3 +83,25 @@ def s_lex(ctx, inputs, impl_lines=None):
         ctx.stream('S-LEX', inputs=1, lines=1)
         if io.strip() != mo.strip():
             ctx.mismatch('S-LEX', s, mo[:300], io[:300])
+
+
+# --- S-SPLIT --------------------------------------------------------------------------------
+def impl_split_line(s):
+    import sqlparse
+    from sqlparse import lexer
+    from sqlparse.engine import StatementSplitter
+    try:
+        sts = list(StatementSplitter().process(lexer.tokenize(s)))
+        pieces = sqlparse.split(s)
+    except Exception as e:
+        return 'err ' + type(e).__name__
+    return 'ok ' + ' '.join(str(len(st.tokens)) for st in sts) + ' | ' + ' ; '.join(hexs(p) for p in pieces)
+
+
+def s_split(ctx, inputs, impl_lines=None):
+    outs = ctx.model.ask(['split ' + hexs(s) for s in inputs])
+    for i, (s, mo) in enumerate(zip(inputs, outs)):
+        io = impl_lines[i] if impl_lines is not None else impl_split_line(s)
+        ctx.stream('S-SPLIT', inputs=1, lines=1)
+        if io.split() != mo.split():
+            ctx.mismatch('S-SPLIT', s, mo[:300], io[:300])
